@@ -1,0 +1,76 @@
+// +build verif
+
+package app
+
+import (
+	"github.com/Oneledger/protocol/vm"
+)
+
+// VerifInterpose wraps every ABCI entry point of the application with the two
+// observers. It must be called before Prepare() so that the handshake replay
+// performed while the node is constructed is observed too.
+//
+// Verification-only: compiled with the "verif" build tag, never in production.
+func (app *App) VerifInterpose(before func(method string, req interface{}), after func(method string, req, resp interface{})) {
+	orig := *app.abci
+	app.abci.infoServer = func(r RequestInfo) ResponseInfo {
+		before("Info", r)
+		resp := orig.infoServer(r)
+		after("Info", r, resp)
+		return resp
+	}
+	app.abci.optionSetter = func(r RequestSetOption) ResponseSetOption {
+		before("SetOption", r)
+		resp := orig.optionSetter(r)
+		after("SetOption", r, resp)
+		return resp
+	}
+	app.abci.queryer = func(r RequestQuery) ResponseQuery {
+		before("Query", r)
+		resp := orig.queryer(r)
+		after("Query", r, resp)
+		return resp
+	}
+	app.abci.txChecker = func(r RequestCheckTx) ResponseCheckTx {
+		before("CheckTx", r)
+		resp := orig.txChecker(r)
+		after("CheckTx", r, resp)
+		return resp
+	}
+	app.abci.chainInitializer = func(r RequestInitChain) ResponseInitChain {
+		before("InitChain", r)
+		resp := orig.chainInitializer(r)
+		after("InitChain", r, resp)
+		return resp
+	}
+	app.abci.blockBeginner = func(r RequestBeginBlock) ResponseBeginBlock {
+		before("BeginBlock", r)
+		resp := orig.blockBeginner(r)
+		after("BeginBlock", r, resp)
+		return resp
+	}
+	app.abci.txDeliverer = func(r RequestDeliverTx) ResponseDeliverTx {
+		before("DeliverTx", r)
+		resp := orig.txDeliverer(r)
+		after("DeliverTx", r, resp)
+		return resp
+	}
+	app.abci.blockEnder = func(r RequestEndBlock) ResponseEndBlock {
+		before("EndBlock", r)
+		resp := orig.blockEnder(r)
+		after("EndBlock", r, resp)
+		return resp
+	}
+	app.abci.commitor = func() ResponseCommit {
+		before("Commit", nil)
+		resp := orig.commitor()
+		after("Commit", nil, resp)
+		return resp
+	}
+}
+
+// VerifStateDB exposes the EVM state adapter the application executes OLVM
+// transactions against (read-only use by the verification harness).
+func (app *App) VerifStateDB() *vm.CommitStateDB {
+	return app.Context.stateDB
+}
